@@ -88,7 +88,7 @@ def gen_case(ctx, idx, stream='case'):
     if c['planes'] == 1 and c['layout'] == '3d' and r.random() < 0.4:
         c['layout'] = '2d'
     nseg = r.choice([1, 1, 2, 2, 3, 4, 5])
-    if isfloat and c['layout'] != '4d' and not (c['type'] != 'LABELMAP' and r.random() < 0.15):
+    if isfloat and c['layout'] != '4d' and not (c['type'] != 'LABELMAP' and r.random() < 0.1):
         nseg = 1                            # a 3-D float array is a single segment by definition (15 %: several
         #                                     descriptions anyway -- BINARY: label-map meaning, segment 1 only;
         #                                     FRACTIONAL: open finding, the mask is copied to every segment)
@@ -659,6 +659,20 @@ def run_case(ctx, c, reqs, pending, paths=('memory', 'eager', 'lazy')):
         pending.append((desc, 'refusal', ('err', kind)))
         return
     exp = expected_raw(c, mask)
+    if c['type'] == 'FRACTIONAL' and mask.dtype.kind == 'f' and c['layout'] != '4d' and len(c['segs']) > 1:
+        # region of the open finding C01-float-fraction-copied: ONE oracle verdict per case (so that known failures can
+        # never fill the failure list) + the model comparison, nothing else
+        ctx.case(path='memory', **hist)
+        case = dict(desc, path='memory', request='supplied', order=list(range(P)))
+        try:
+            got = read_back(seg, c, src, ids, list(range(P)), assert_missing_frames_are_empty=True, rescale_fractional=False)
+            if not np.array_equal(got.astype(np.int64), exp):
+                ctx.fail(case, 'a float mask for a single segment reads back for several described segments', site='read/memory')
+            reqs.append(('roundtrip', dict(margs, request=list(range(P)), allow_missing=True)))
+            pending.append((case, 'read', None, got.astype(np.int64).transpose(0, 3, 1, 2).reshape(P, -1, n).tolist()))
+        except Exception as e:  # noqa: BLE001
+            ctx.fail(case, f'read refused: {type(e).__name__}: {e}'[:300], site='read/memory')
+        return
     alt = near_tie_alternative(c, mask, exp)
     n_ties = int((alt != exp).sum())
     ctx.hist('near_tie_pixels', n_ties if n_ties < 9 else '9+')
